@@ -2,7 +2,7 @@ SPECIFICATION Spec
 CONSTANTS
   Fixed = TRUE
   Algs = {"sha1", "sha224", "sha256", "sha384", "sha512"}
-  Muts = {"none", "msg_changed", "msg_removed", "relay_changed", "relay_removed", "relay_added", "sigalg_changed", "sigalg_removed", "sigalg_unsupported", "sig_changed", "sig_removed", "sig_other_message", "typ_swapped", "reordered", "extra_param"}
+  Muts = {"none", "msg_changed", "msg_removed", "relay_changed", "relay_removed", "relay_added", "sigalg_changed", "sigalg_removed", "sigalg_unsupported", "sig_changed", "sig_removed", "sig_other_message", "typ_swapped", "reordered", "extra_param", "nosigalg_signed"}
 INVARIANT Contract
 INVARIANT WireContract
 CHECK_DEADLOCK FALSE
